@@ -148,7 +148,7 @@ func head(b []byte, n int) []byte {
 func genC11(t *rapid.T, tier string) interface{} {
 	pr := &histProfile{OwnerBias: 2, GovHandover: true, HugeBalances: true, MaxBlocks: 10, MinBlocksOf: []int{1, 4, 8}, MaxTxs: 8, Evidence: 8, Missed: 4, Restart: 0, Queries: true,
 		TxKinds: []string{"send", "send", "stake", "stake", "unstake", "unjail", "unjail", "award", "burn", "param", "param", "dao", "dao", "upgrade", "raw", "rawmut", "rawmut", "structmut", "structmut", "structmut"},
-		Modes:   []string{"", "", "", "", "check", "recheck", "simulate", "simulate"}, WrongSigner: 10, Mutations: []string{"sigflip", "amount", "memo"}}
+		Modes:   []string{"", "", "", "", "check", "recheck", "simulate", "simulate"}, WrongSigner: 10, Mutations: []string{"sigflip", "amount", "memo", "sigpartial"}}
 	if tier == "thorough" {
 		pr.MaxBlocks = 24
 	}
